@@ -125,6 +125,22 @@ func genAE(rng *Rng, seqs [][]uint64, now int64) aeCase {
 		pre.CI = lo
 	}
 	pre.LA = lo + uint64(rng.Intn(int(pre.CI-lo)+1))
+	// a configuration entry above the commit index that the node has adopted (a leader adopts a change
+	// when it appends it; deposed, it keeps it until a truncation takes the entry away): C09 domain
+	if li > pre.CI && rng.Chance(25) {
+		j := pre.CI + 1 + uint64(rng.Intn(int(li-pre.CI)))
+		for k := range flog.Ents {
+			if flog.Ents[k].Index == j {
+				nc := &Cfg{Index: j, Members: [][2]uint64{{1, 1}, {2, 1}, {3, 1}, {4, uint64(rng.Intn(2))}}}
+				if rng.Chance(30) {
+					nc.Members = [][2]uint64{{1, 1}, {2, 1}}
+				}
+				flog.Ents[k].Kind, flog.Ents[k].Data, flog.Ents[k].Cfg = 2, 0, nc
+				pre.Log = flog
+				pre.Cfg = nc
+			}
+		}
+	}
 	// request
 	prev := rng.Intn(len(lt) + 2) // may point one past the leader's log (never built, but a possible input)
 	if prev > len(lt) {
@@ -134,6 +150,11 @@ func genAE(rng *Rng, seqs [][]uint64, now int64) aeCase {
 	var ents []Ent
 	for i := prev; i < prev+cnt; i++ {
 		ents = append(ents, Ent{Index: uint64(i + 1), Term: lt[i], Kind: 1, Data: uint64(100*(i+1)) + lt[i]*10 + salt})
+	}
+	if len(ents) > 0 && rng.Chance(12) { // the leader replicates a membership change
+		k := rng.Intn(len(ents))
+		ents[k].Kind, ents[k].Data = 2, 0
+		ents[k].Cfg = &Cfg{Index: ents[k].Index, Members: [][2]uint64{{1, 1}, {2, 1}, {3, 1}, {5, uint64(rng.Intn(2))}}}
 	}
 	var pt uint64
 	if prev > 0 {
@@ -212,6 +233,19 @@ func oracleC06(c aeCase, resp raft.AppendEntriesResponse, post NodeSt) []string 
 	return bad
 }
 
+// oracleC09: the configuration in force after the handler is the committed one or is carried by an
+// entry that is (still) in the log: a change whose entry was truncated away must be rolled back.
+func oracleC09(post NodeSt) []string {
+	if post.Cfg == nil || post.Com == nil || post.Cfg.String() == post.Com.String() {
+		return nil
+	}
+	e := post.Log.Get(post.Cfg.Index)
+	if e == nil || e.Kind != 2 || e.Cfg == nil || e.Cfg.String() != post.Cfg.String() {
+		return []string{fmt.Sprintf("the node uses configuration %s, which is neither its committed configuration %s nor carried by an entry of its log (%s): a membership change that exists in no log", post.Cfg.String(), post.Com.String(), post.Log.String())}
+	}
+	return nil
+}
+
 var aeKeys = []string{"role", "term", "vote", "log", "ci", "la", "si", "st", "cfg", "com", "lc"}
 
 func TestE3AppendEntries(t *testing.T) {
@@ -273,6 +307,12 @@ func TestE3AppendEntries(t *testing.T) {
 			}
 			for _, b := range oracleDurableTV(c.pre, post, eff) {
 				rep.Add(Finding{Kind: "oracle", Property: "C08", Oracle: b, Case: line, Impl: impl, Signature: map[string]string{"oracle": "term-vote-durable-before-reply", "handler": "AppendEntries"}})
+			}
+			for _, b := range oracleC09(post) {
+				rep.Add(Finding{Kind: "oracle", Property: "C09", Oracle: b, Case: line, Impl: impl, Signature: map[string]string{"oracle": "configuration-from-log", "handler": "AppendEntries"}})
+			}
+			if c.pre.Cfg != cfg3 {
+				rep.Hit("adopted-uncommitted-configuration")
 			}
 			compareSections(rep, "C06", line, impl, model, aeKeys, []string{"term", "ok"})
 		}
